@@ -128,6 +128,7 @@ TRIE = 'src/Factored/Utils/Trie.cpp'
 FT = 'src/Factored/Utils/FasterTrie.cpp'
 FMAP = 'include/AIToolbox/Factored/Utils/FilterMap.hpp'
 IMAP = 'include/AIToolbox/Utils/IndexMap.hpp'
+CORE = 'src/Factored/Utils/Core.cpp'
 CELL = 'std::begin(ids_[key][value]),std::end(ids_[key][value]),std::begin(ids_[key].back()),std::end(ids_[key].back())'
 SITES = [
     # ---- Trie: constructor, insert (T.mk?, walkKeys/walkTail/pushAt)
@@ -223,6 +224,12 @@ SITES = [
     (IMAP, 'cend', 'autocend()const{returnconst_iterator(ids_.cend(),items_);}', 1),
     (IMAP, 'const_begin_end', 'autobegin()const{returncbegin();}', 2),
     (IMAP, 'size_is_id_count', 'autosize()const{returnids_.size();}', 2),
+    # ---- Core.cpp match / merge (matchWalk / matchPF / matchF, mergePF)
+    (CORE, 'match_smaller_bigger', 'if(lhsK.size()>rhsK.size()){std::swap(smallerK,biggerK);std::swap(smallerV,biggerV);}', 1),
+    (CORE, 'match_walk', 'size_ti=0,j=0;while(j<smallerK->size()&&i<biggerK->size()){if((*biggerK)[i]<(*smallerK)[j])++i;elseif((*biggerK)[i]>(*smallerK)[j])++j;else{if((*biggerV)[i]!=(*smallerV)[j])returnfalse;++i;++j;}}returntrue;', 1),
+    (CORE, 'match_factors', 'size_ti=0;for(autok:rhs.first)if(lhs[k]!=rhs.second[i++])returnfalse;returntrue;', 1),
+    (CORE, 'merge_walk', 'while(i<lhs.first.size()&&j<rhs.first.size()){if(lhs.first[i]<rhs.first[j]){retval.first.push_back(lhs.first[i]);retval.second.push_back(lhs.second[i]);++i;}else{retval.first.push_back(rhs.first[j]);retval.second.push_back(rhs.second[j]);if(lhs.first[i]==rhs.first[j])++i;++j;}}', 1),
+    (CORE, 'merge_tails', 'retval.first.insert(std::end(retval.first),std::begin(lhs.first)+i,std::end(lhs.first));retval.second.insert(std::end(retval.second),std::begin(lhs.second)+i,std::end(lhs.second));retval.first.insert(std::end(retval.first),std::begin(rhs.first)+j,std::end(rhs.first));retval.second.insert(std::end(retval.second),std::begin(rhs.second)+j,std::end(rhs.second));', 1),
     # ---- IndexSkipMap / IndexSkipMapIterator (skipLoop / skipBegin / skipNext / skipWalkGo)
     (IMAP, 'skip_ctor', 'currentId_(start),currentSkipId_(0),ids_(ids),items_(items){skip();}', 1),
     (IMAP, 'skip_loop', 'voidskip(){while(currentId_<items_.size()&&currentSkipId_<ids_.size()&&currentId_==ids_[currentSkipId_]){++currentId_;++currentSkipId_;}}', 1),
@@ -239,7 +246,7 @@ SITES = [
 
 def gen_c20_sites():
     texts, raw = {}, {}
-    for rel in (TRIE, FT, FMAP, IMAP):
+    for rel in (TRIE, FT, FMAP, IMAP, CORE):
         raw[rel] = E.strip_comments(E.read(rel))
         texts[rel] = norm(raw[rel])
     bad, rows = [], []
